@@ -68,6 +68,7 @@ func checkC08(c *Ctx) {
 	// order of the two notifications inside one operation: removals first. If the enforcer
 	// hears of the new message while a message the same operation already evicted is still on
 	// its books, it sees the store over the limit and evicts a live message that fits.
+	r.Rule("C08/PAIR/rendezvous", "every send on the enforcer's request channels is followed, on every path to the sender's return, by a receive (the completion signal); both request channels are created together")
 	r.Rule("C08/PAIR/order", "in an operation that both adds a message and removes others (cap eviction), every enforcerRemove of a removed message precedes enforcerDeliver of the added one: no enforcerRemove is reachable after enforcerDeliver")
 	nOrd := 0
 	for _, fn := range pkgFuncs(p, "pkg/storage/mem") {
@@ -518,6 +519,156 @@ func (c *Ctx) c08Enforcer(pm *pairModel) {
 		}
 	}
 	r.Floor("C08/ENFORCER/shape", "list removals in the enforcer", len(removes), 1)
+	c.c08PendingRemoval(pm, F, pushBack)
+	c.c08Rendezvous(pm)
+}
+
+// c08PendingRemoval: a removal can reach the enforcer before the delivery of the same message
+// (the message is visible in its mailbox before it is registered). The removal arm then finds
+// no list element; it must leave a mark on the message, and the delivery arm must not register
+// a marked message — otherwise the message is counted although it is gone, its bytes are never
+// released, and the enforcer later evicts mail from a store that is within its limit.
+func (c *Ctx) c08PendingRemoval(pm *pairModel, F []*ssa.Function, pushBack []*ssa.Call) {
+	r, p := c.R, c.P
+	E := pm.enforcerLoop
+	cons := shortFn(E) + ":pending-removal"
+	elF := memElementField(p)
+	if elF == nil || len(pushBack) != 1 {
+		return
+	}
+	// the unregistered branch of the removal arm: an edge on which a load of the element field
+	// is nil
+	var mark *types.Var
+	var markSite ssa.Instruction
+	found := false
+	for _, fn := range F {
+		for _, b := range fn.Blocks {
+			for k := 0; k < len(b.Succs) && len(b.Succs) == 2; k++ {
+				rel, ok := eng.EdgeRel(b, k)
+				if !ok || rel.Op != token.EQL || !eng.IsNilConst(rel.Y) || !eng.SameField(eng.LoadedField(rel.X), elF) {
+					continue
+				}
+				found = true
+				// a store of a constant to a field of the message (or of its bookkeeping record)
+				// on that edge
+				for _, blk := range fn.Blocks {
+					if !eng.EdgeDominates(b, k, blk) && blk != b.Succs[k] {
+						continue
+					}
+					for _, in := range blk.Instrs {
+						st, isSt := in.(*ssa.Store)
+						if !isSt {
+							continue
+						}
+						fa, isFA := st.Addr.(*ssa.FieldAddr)
+						if !isFA {
+							continue
+						}
+						if bv, isC := eng.ConstBool(st.Val); isC && bv {
+							mark, markSite = eng.FieldOfAddr(fa), in
+						}
+					}
+				}
+			}
+		}
+	}
+	if !found {
+		return // the design has no unregistered case (the rule C09/NIL/el then has nothing to guard either)
+	}
+	if mark == nil {
+		r.Bad("C08/ENFORCER/shape", cons, p.Pos(E.Pos()), "a removal that arrives before the message's delivery (no list element yet) leaves no mark on the message: the delivery that follows registers a message that is already gone, its bytes are never released, and the account drifts upward")
+		return
+	}
+	// the registration is skipped for a marked message
+	guarded := false
+	pb := pushBack[0]
+	for _, b := range pb.Parent().Blocks {
+		for k := 0; k < len(b.Succs) && len(b.Succs) == 2; k++ {
+			v, pol, ok := eng.CondTruth(b, k)
+			if ok && !pol && eng.SameField(eng.LoadedField(v), mark) && eng.EdgeDominates(b, k, pb.Block()) {
+				guarded = true
+			}
+		}
+	}
+	if guarded {
+		r.Ok("C08/ENFORCER/shape", cons, p.InstrPos(markSite), "a removal that overtakes its delivery marks the message (%s), and the delivery arm registers only unmarked messages", mark.Name())
+	} else {
+		r.Bad("C08/ENFORCER/shape", cons, p.InstrPos(pb), "the delivery arm registers a message without testing the mark (%s) that an overtaking removal leaves on it: a message that is already gone is counted, its bytes are never released, and the account drifts upward", mark.Name())
+	}
+}
+
+// c08Rendezvous: the store operations wait for the enforcer to have processed each notice
+// (send, then receive on the record's done channel) and the two request channels exist
+// together. Without the wait the order of a removal notice and the delivery notice that follows
+// it is lost (they travel on two channels the enforcer selects from), and with only one channel
+// made the other kind of notice is silently dropped.
+func (c *Ctx) c08Rendezvous(pm *pairModel) {
+	r, p := c.R, c.P
+	n := 0
+	ord := map[string]int{}
+	for _, fn := range pkgFuncs(p, "pkg/storage/mem") {
+		fn := fn
+		eng.EachInstr(fn, func(in ssa.Instruction) {
+			sd, ok := in.(*ssa.Send)
+			if !ok {
+				return
+			}
+			ch := eng.StripConv(sd.Chan)
+			if prm, isP := ch.(*ssa.Parameter); isP {
+				ch = eng.StripConv(p.Actual(prm))
+			}
+			f := eng.LoadedField(ch)
+			isReq := eng.SameField(f, pm.fRemove) || eng.SameField(f, pm.fIncoming)
+			if !isReq {
+				// the shared helper's own parameter (submit(c enforcerChan, …))
+				if prm, isP := eng.StripConv(sd.Chan).(*ssa.Parameter); isP && pm.enforcerVia == prm.Parent() {
+					isReq = true
+				}
+			}
+			if !isReq {
+				return
+			}
+			n++
+			cons := siteCons(p, in, ord, "rendezvous")
+			waits := func(x ssa.Instruction) bool {
+				u, ok := x.(*ssa.UnOp)
+				return ok && u.Op == token.ARROW
+			}
+			if ret := (&eng.Search{Target: eng.IsReturnOf(fn), Avoid: waits}).After(in); ret != nil {
+				r.Bad("C08/PAIR/rendezvous", cons, p.InstrPos(in), "%s hands a notice to the size enforcer and can return at %s without waiting for it to be processed: a removal notice and the delivery notice that follows it travel on two channels, so the enforcer may see the delivery first, count both messages and evict a live one", shortFn(fn), p.InstrPos(ret))
+			} else {
+				r.Ok("C08/PAIR/rendezvous", cons, p.InstrPos(in), "the notice is awaited before the operation goes on")
+			}
+		})
+	}
+	r.Floor("C08/PAIR/rendezvous", "sends on the enforcer's request channels", n, 1)
+	// both channels are made where one is
+	var mkIn, mkRm []ssa.Instruction
+	for _, fs := range eng.StoresToField(pkgFuncs(p, "pkg/storage/mem"), pm.fIncoming) {
+		if _, isMk := fs.Store.Val.(*ssa.MakeChan); isMk {
+			mkIn = append(mkIn, fs.Store)
+		}
+	}
+	for _, fs := range eng.StoresToField(pkgFuncs(p, "pkg/storage/mem"), pm.fRemove) {
+		if _, isMk := fs.Store.Val.(*ssa.MakeChan); isMk {
+			mkRm = append(mkRm, fs.Store)
+		}
+	}
+	okBoth := len(mkIn) > 0 && len(mkIn) == len(mkRm)
+	for i := range mkIn {
+		if i < len(mkRm) && !(eng.Dominates(mkIn[i], mkRm[i]) || eng.Dominates(mkRm[i], mkIn[i])) {
+			okBoth = false
+		}
+	}
+	if okBoth {
+		r.Ok("C08/PAIR/rendezvous", "channels", p.InstrPos(mkIn[0]), "the delivery and removal channels are created together")
+	} else {
+		site := ""
+		if len(mkIn) > 0 {
+			site = p.InstrPos(mkIn[0])
+		}
+		r.Bad("C08/PAIR/rendezvous", "channels", site, "the enforcer's delivery and removal channels are not created together (%d vs %d creations): with one of them nil that kind of notice is dropped without a trace and the byte account drifts", len(mkIn), len(mkRm))
+	}
 }
 
 func (c *Ctx) c08Cap(pm *pairModel) {
